@@ -21,8 +21,13 @@ import (
 // DSN builds a modernc DSN. Only per-connection pragmas that are honoured in a
 // DSN are passed here; page_size/auto_vacuum/journal_mode are set by statements
 // (modernc ignores them in the DSN) and read back.
+// ExtraPragmas is appended to every DSN built by this package (e.g.
+// "&_pragma=secure_delete(1)"). A worker process runs one case at a time, so the
+// sequential history runner sets it for the duration of a case.
+var ExtraPragmas string
+
 func DSN(path string, busyMs int, cacheSize int) string {
-	s := fmt.Sprintf("file:%s?_pragma=busy_timeout(%d)&_pragma=wal_autocheckpoint(0)", path, busyMs)
+	s := fmt.Sprintf("file:%s?_pragma=busy_timeout(%d)&_pragma=wal_autocheckpoint(0)", path, busyMs) + ExtraPragmas
 	if cacheSize != 0 {
 		s += fmt.Sprintf("&_pragma=cache_size(%d)", cacheSize)
 	}
